@@ -25,7 +25,8 @@ pub struct TrioRoot {
     pub fees: Fee3,
     pub first: [u128; 3],
     pub pre_swaps: bool,
-    /// start an amplification ramp to this target over 20000 blocks and advance 7000 blocks (mid-ramp root)
+    /// start an amplification ramp to this target over 20000 blocks and advance about 7000 blocks, to the last block before
+    /// the effective amplification steps (mid-ramp root)
     pub mid_ramp_to: Option<u64>,
 }
 
@@ -251,7 +252,15 @@ impl Scenario for TrioScn {
                 &[],
             )
             .expect("root ramp");
-            w.advance(7000 * 6_000_000_000, 7000);
+            // about 7000 blocks in, on the last block before the (integer) effective amplification takes its next step:
+            // anything that looks one block ahead or behind sees a different amp there
+            let c = trio_config(w, &h.trio.addr);
+            let h0 = w.height();
+            let mut d = 7000u64;
+            while d < 19_000 && effective_amp(&c, h0 + d + 1) == effective_amp(&c, h0 + d) {
+                d += 1;
+            }
+            w.advance(d * 6_000_000_000, d);
         }
         let burned = trio_burned(w, &h.trio.addr).unwrap();
         let mut supply0 = [0u128; 3];
